@@ -146,6 +146,7 @@ func buildZoo() *zooBuilder {
 	z.addTypes()
 	z.addMulti()
 	z.addBlob()
+	z.addCursor() // zoo_cursor.go; new entries go after all existing ones
 	return z
 }
 
